@@ -31,6 +31,18 @@ static void put(char **buf, size_t *len, size_t *cap, const char *fmt, ...)
 
 static void hook_dtor(void *h) { (void)h; }
 
+/* an include function that refuses every include with a message of the calling thread's own (kept in thread-local storage):
+   the error text of a configuration is that message, whatever other threads' include functions say in the meantime */
+#include <stdint.h>
+static const char **refuse_inc(config_t *c, const char *dir, const char *path, const char **error)
+{
+  static __thread char msg[80];
+  (void)dir;
+  snprintf(msg, sizeof msg, "include of %s refused for thread %d", path, (int)(intptr_t)config_get_hook(c));
+  *error = msg;
+  return NULL;
+}
+
 /* the program of thread [id]: everything it observes goes into the result string */
 static char *run_program(int id)
 {
@@ -110,6 +122,18 @@ static char *run_program(int id)
     put(&res, &len, &cap, "absent=%d err=%s file=%s line=%d type=%d\n", rc, config_error_text(&c3) ? config_error_text(&c3) : "-",
         config_error_file(&c3) ? "set" : "-", config_error_line(&c3), (int)config_error_type(&c3));
     config_destroy(&c3);
+  }
+  /* an include refused by the application's include function, with a message of this thread's own; looked at after more work */
+  {
+    config_t c4; char *w4 = NULL; size_t l4 = 0;
+    config_init(&c4);
+    config_set_hook(&c4, (void *)(intptr_t)id);
+    config_set_include_func(&c4, refuse_inc);
+    snprintf(text, sizeof text, "r%d = 1;\n@include \"part%d.cfg\"\n", id, id);
+    rc = config_read_string(&c4, text);
+    m = open_memstream(&w4, &l4); config_write(&c, m); fclose(m); free(w4);
+    put(&res, &len, &cap, "refused=%d err=%s line=%d\n", rc, config_error_text(&c4) ? config_error_text(&c4) : "-", config_error_line(&c4));
+    config_destroy(&c4);
   }
   free(wbuf); free(wbuf2);
   config_destroy(&c2);
